@@ -558,6 +558,13 @@ def do_check(
             raise SemanticError()
     except SemanticError:
         return 1, "input does not satisfy the ISLa constraint", Nothing
+    except Exception as exc:
+        return (
+            1,
+            f"isla {command}: error: An exception ({type(exc).__name__}) occurred "
+            + f"during constraint checking, message: `{exc}`",
+            Nothing,
+        )
 
     return 0, "input satisfies the ISLa constraint", Some(tree)
 
